@@ -120,7 +120,8 @@ CLAIMS = {
         "protected global bucket obeys it under every interleaving), checkLimit_tenant_rel (sequential check_limit incl. the "
         "refund path), C19_refund_restores, C19_no_spurious_refusal, C19_tenant_all_schedules (the tenant bucket, locked from consume to "
         "refund, sees atomic calls at monotone readings whatever the global bucket answers) and C19_prefix_refund_window (the "
-        "pre-fix protocol admits burst+1 at one instant). Tie: the real RateLimiter runs under a "
+        "pre-fix protocol admits burst+1 at one instant), C19_first_use_one_bucket + C19_first_use_private_buckets_exceed_burst "
+        "(concurrent first requests of a tenant). Tie: the real RateLimiter runs under a "
         "virtual CLOCK_MONOTONIC (in-binary interposition) on generated call patterns; decisions, clock-read counts and available "
         "tokens are compared with the exact-arithmetic model; window oracle and reference-bucket oracle (refused => nothing consumed, "
         "not refused while budget remains) on the implementation. Concurrent callers: 2-3 threads on the real RateLimiter under the "
@@ -311,7 +312,9 @@ CLAIMS = {
    technique="Lean 4 proof (step-level protocol model: without the lock a snapshot loses an acknowledged write - witness; with the lock discipline every schedule is a sequential history; sequential histories are lossless - C02) + controlled-scheduler exploration of writers vs snapshotter on the real engine with recovery after every schedule",
    text="C09_unprotected_snapshot_loses_a_write (witness), C09_protected_is_sequential (any schedule, any length), "
         "C09_protected_schedules_lose_nothing, C09_sequential_histories_are_lossless (= C02_restart_lossless over the full "
-        "persistence model incl. automatic snapshots, rotation, compaction, tombstone compaction). Search: 1-2 writer threads vs a "
+        "persistence model incl. automatic snapshots, rotation, compaction, tombstone compaction), "
+        "C09_manifest_rmw_under_the_lock_is_sequential + C09_manifest_rmw_outside_the_lock_loses_the_commit (the MANIFEST as a cell "
+        "shared by rotation and snapshot commit). Search: 1-2 writer threads vs a "
         "snapshotting thread, snapshot intervals {off,1,2,3}, rotation {off,1,150 bytes}, DFS with preemption bound and random "
         "schedules; after each: real strict recover == final live collection.",
    note="Partial: that the real critical sections are what the discipline assumes is exercised by the search (bounded / sampled, "
